@@ -410,3 +410,258 @@ Section Complete.
     rewrite mp_bytes_eqb_refl. reflexivity.
   Qed.
 End Complete.
+
+(* ------------------------------------------------------------------ *)
+(* 3. soundness: unique readability of the representation              *)
+(* ------------------------------------------------------------------ *)
+Lemma mp_app_inv_len {A} : forall (a c b d : list A),
+  length a = length c -> a ++ b = c ++ d -> a = c /\ b = d.
+Proof.
+  induction a as [|x a IH]; intros [|y c] b d Hl E; cbn [length] in Hl; try discriminate.
+  - split; [reflexivity|exact E].
+  - cbn [app] in E. injection E as -> E. injection Hl as Hl.
+    destruct (IH c b d Hl E) as [-> ->]. split; reflexivity.
+Qed.
+
+Lemma mp_split8 (a : list bool) n : length a = (8 * S n)%nat ->
+  exists l a', a = l ++ a' /\ length l = 8%nat /\ length a' = (8 * n)%nat.
+Proof.
+  intro Hl. exists (firstn 8 a), (skipn 8 a). split; [symmetry; apply firstn_skipn|].
+  rewrite firstn_length, skipn_length. lia.
+Qed.
+
+Lemma mp_b2b_app : forall n a r, length a = (8 * n)%nat ->
+  bits_to_bytes (a ++ r) = bits_to_bytes a ++ bits_to_bytes r.
+Proof.
+  induction n as [|n IH]; intros a r Hl.
+  - destruct a; [reflexivity|cbn [length] in Hl; lia].
+  - destruct (mp_split8 a n Hl) as (l & a' & -> & H8 & Hl').
+    rewrite <- app_assoc, !(ex_bits_to_bytes_8 _ _ H8), (IH _ _ Hl'). reflexivity.
+Qed.
+
+Lemma mp_b2b_len : forall n a, length a = (8 * n)%nat -> length (bits_to_bytes a) = n.
+Proof.
+  induction n as [|n IH]; intros a Hl.
+  - destruct a; [reflexivity|cbn [length] in Hl; lia].
+  - destruct (mp_split8 a n Hl) as (l & a' & -> & H8 & Hl').
+    rewrite (ex_bits_to_bytes_8 _ _ H8). cbn [length]. f_equal. apply IH. exact Hl'.
+Qed.
+
+Lemma mp_b2b_rt : forall n a, length a = (8 * n)%nat -> bytes_to_bits (bits_to_bytes a) = a.
+Proof.
+  induction n as [|n IH]; intros a Hl.
+  - destruct a; [reflexivity|cbn [length] in Hl; lia].
+  - destruct (mp_split8 a n Hl) as (l & a' & -> & H8 & Hl').
+    rewrite (ex_bits_to_bytes_8 _ _ H8).
+    change (bytes_to_bits (of_bits l :: bits_to_bytes a'))
+      with (to_bits 8 (of_bits l) ++ bytes_to_bits (bits_to_bytes a')).
+    rewrite (IH _ Hl'). f_equal.
+    pose proof (to_bits_of_bits l) as E. rewrite H8 in E. exact E.
+Qed.
+
+Lemma mp_pad_len b : length (s_pad b) = (8 * ((length b + 7) / 8))%nat.
+Proof.
+  unfold s_pad. destruct (Nat.eqb_spec (length b mod 8) 0) as [E|E].
+  - pose proof (Nat.div_mod (length b) 8 ltac:(lia)) as Hdm. rewrite E in Hdm.
+    replace (length b + 7)%nat with (7 + (length b / 8) * 8)%nat by lia.
+    rewrite Nat.div_add by lia. change (7 / 8)%nat with 0%nat. lia.
+  - rewrite !app_length, repeat_length. cbn [length].
+    pose proof (Nat.div_mod (length b) 8 ltac:(lia)) as Hdm.
+    pose proof (Nat.mod_upper_bound (length b) 8 ltac:(lia)) as Hub.
+    replace (length b + 7)%nat with ((length b mod 8 - 1) + (length b / 8 + 1) * 8)%nat by lia.
+    rewrite Nat.div_add by lia. rewrite (Nat.div_small (length b mod 8 - 1) 8) by lia. lia.
+Qed.
+
+Lemma mp_d2_split b : s_d2 b = 2 * N.of_nat (b / 8) + (if (b mod 8 =? 0)%nat then 0 else 1) /\
+  ((b + 7) / 8 = b / 8 + (if (b mod 8 =? 0)%nat then 0 else 1))%nat.
+Proof.
+  pose proof (Nat.div_mod b 8 ltac:(lia)) as Hdm.
+  pose proof (Nat.mod_upper_bound b 8 ltac:(lia)) as Hub.
+  assert (Hq : ((b + 7) / 8 = b / 8 + (if (b mod 8 =? 0)%nat then 0 else 1))%nat).
+  { destruct (Nat.eqb_spec (b mod 8) 0) as [Hr|Hr].
+    - replace (b + 7)%nat with (7 + (b / 8) * 8)%nat by lia. rewrite Nat.div_add by lia.
+      change (7 / 8)%nat with 0%nat. lia.
+    - replace (b + 7)%nat with ((b mod 8 - 1) + (b / 8 + 1) * 8)%nat by lia. rewrite Nat.div_add by lia.
+      rewrite (Nat.div_small (b mod 8 - 1) 8) by lia. lia. }
+  split; [|exact Hq]. unfold s_d2. rewrite Hq. destruct (b mod 8 =? 0)%nat; lia.
+Qed.
+
+Lemma mp_repeat_no_true k b r : repeat false k = b ++ true :: r -> False.
+Proof.
+  intro E. assert (Hin : In true (repeat false k)) by (rewrite E; apply in_elt).
+  apply repeat_spec in Hin. discriminate.
+Qed.
+
+Lemma mp_marker : forall a b k k',
+  a ++ true :: repeat false k = b ++ true :: repeat false k' -> a = b.
+Proof.
+  induction a as [|x a IH]; intros [|y b] k k' E; cbn [app] in E.
+  - reflexivity.
+  - injection E as _ E. exfalso. apply (mp_repeat_no_true _ _ _ E).
+  - injection E as _ E. exfalso. symmetry in E. apply (mp_repeat_no_true _ _ _ E).
+  - injection E as -> E. f_equal. apply (IH _ _ _ E).
+Qed.
+
+(* the descriptor byte and the padded data determine the data bits *)
+Lemma mp_pad_inj b b' x x' : s_d2 (length b) = s_d2 (length b') ->
+  bits_to_bytes (s_pad b) ++ x = bits_to_bytes (s_pad b') ++ x' -> b = b' /\ x = x'.
+Proof.
+  intros Hd E.
+  destruct (mp_d2_split (length b)) as [D1 Q1]. destruct (mp_d2_split (length b')) as [D2 Q2].
+  assert (Hn : ((length b + 7) / 8 = (length b' + 7) / 8)%nat /\
+               (length b mod 8 =? 0)%nat = (length b' mod 8 =? 0)%nat).
+  { rewrite D1, D2 in Hd. rewrite Q1, Q2.
+    destruct (length b mod 8 =? 0)%nat, (length b' mod 8 =? 0)%nat; split; try reflexivity; lia. }
+  destruct Hn as [Hn Hz].
+  apply mp_app_inv_len in E.
+  2:{ rewrite (mp_b2b_len _ _ (mp_pad_len b)), (mp_b2b_len _ _ (mp_pad_len b')). exact Hn. }
+  destruct E as [E Ex]. split; [|exact Ex].
+  apply (f_equal bytes_to_bits) in E.
+  rewrite (mp_b2b_rt _ _ (mp_pad_len b)), (mp_b2b_rt _ _ (mp_pad_len b')) in E.
+  unfold s_pad in E. rewrite <- Hz in E.
+  destruct (length b mod 8 =? 0)%nat; [exact E|].
+  cbn [app] in E. apply mp_marker in E. exact E.
+Qed.
+
+Lemma mp_concat_inj n : forall (l1 l2 : list (list N)),
+  Forall (fun x => length x = n) l1 -> Forall (fun x => length x = n) l2 ->
+  length l1 = length l2 -> concat l1 = concat l2 -> l1 = l2.
+Proof.
+  induction l1 as [|x l1 IH]; intros [|y l2] H1 H2 Hl E; cbn [length] in Hl; try discriminate;
+    [reflexivity|].
+  inversion H1 as [|? ? Hx H1']. inversion H2 as [|? ? Hy H2']. subst.
+  cbn [concat] in E. apply mp_app_inv_len in E; [|congruence].
+  destruct E as [-> E]. f_equal. apply IH; auto.
+Qed.
+
+Lemma mp_concat_len {A} (f : A -> list N) n l : (forall x, length (f x) = n) ->
+  length (concat (map f l)) = (n * length l)%nat.
+Proof.
+  intro Hf. induction l as [|a l IH]; cbn [map concat length]; [lia|].
+  rewrite app_length, IH, Hf. lia.
+Qed.
+
+Section Sound.
+  Variable H : list N -> list N.
+  Hypothesis H_len : forall m, length (H m) = 32%nat.
+  Hypothesis H_ok : forall m, bytes_ok (H m).
+
+  (* a pruned leaf of a virtualised tree, read back *)
+  Lemma mp_pruned_virtual bits rs : wf_virtual (Cell ty_pruned bits rs) = true ->
+    rs = [] /\ exists h d, length h = 32%nat /\
+      bits = to_bits 8 1 ++ to_bits 8 1 ++ bytes_to_bits h ++ to_bits 16 d /\
+      s_hash_at H (Cell ty_pruned bits []) 0 = h.
+  Proof.
+    cbn [wf_virtual]. change (ty_pruned =? ty_pruned)%Z with true. cbv iota. intro Hw.
+    apply andb_prop in Hw. destruct Hw as [Hw Hm2].
+    apply andb_prop in Hw. destruct Hw as [Hw Hm1].
+    apply andb_prop in Hw. destruct Hw as [Hrs Hlen].
+    apply Nat.eqb_eq in Hrs, Hlen. apply N.eqb_eq in Hm1, Hm2.
+    split; [destruct rs; [reflexivity|discriminate]|].
+    pose proof Hm2 as Hmask.
+    unfold slice in Hm2. change (16 - 8)%nat with 8%nat in Hm2.
+    set (b1 := firstn 8 bits) in *. set (r1 := skipn 8 bits) in *.
+    set (b2 := firstn 8 r1) in *. set (r2 := skipn 8 r1).
+    set (b3 := firstn 256 r2). set (b4 := skipn 256 r2).
+    assert (L1 : length b1 = 8%nat) by (unfold b1; rewrite firstn_length; lia).
+    assert (Lr1 : length r1 = 280%nat) by (unfold r1; rewrite skipn_length; lia).
+    assert (L2 : length b2 = 8%nat) by (unfold b2; rewrite firstn_length; lia).
+    assert (Lr2 : length r2 = 272%nat) by (unfold r2; rewrite skipn_length; lia).
+    assert (L3 : length b3 = (8 * 32)%nat) by (unfold b3; rewrite firstn_length; lia).
+    assert (L4 : length b4 = 16%nat) by (unfold b4; rewrite skipn_length; lia).
+    assert (Eb : bits = b1 ++ b2 ++ b3 ++ b4).
+    { unfold b1, b2, b3, b4, r2, r1. rewrite !firstn_skipn. reflexivity. }
+    assert (E1 : to_bits 8 1 = b1).
+    { pose proof (to_bits_of_bits b1) as E. rewrite L1, Hm1 in E. exact E. }
+    assert (E2 : to_bits 8 1 = b2).
+    { pose proof (to_bits_of_bits b2) as E. rewrite L2, Hm2 in E. exact E. }
+    assert (E4 : to_bits 16 (of_bits b4) = b4).
+    { pose proof (to_bits_of_bits b4) as E. rewrite L4 in E. exact E. }
+    pose proof (mp_b2b_len 32 b3 L3) as Hhl. pose proof (mp_b2b_rt 32 b3 L3) as Hrt.
+    exists (bits_to_bytes b3), (of_bits b4).
+    split; [exact Hhl|]. split; [rewrite Hrt, E4; rewrite E1 at 1; rewrite E2; exact Eb|].
+    assert (Hpad : s_pad bits = bits).
+    { unfold s_pad. rewrite Hlen. reflexivity. }
+    assert (Hdata : bits_to_bytes bits = of_bits b1 :: of_bits b2 :: bits_to_bytes b3 ++ bits_to_bytes b4).
+    { rewrite Eb. rewrite (ex_bits_to_bytes_8 _ _ L1), (ex_bits_to_bytes_8 _ _ L2), (mp_b2b_app 32 b3 b4 L3).
+      reflexivity. }
+    unfold s_hash_at. rewrite ex_s_hd_pruned. cbv zeta. rewrite ex_s_mask_pruned, Hmask, ex_low_mask_0.
+    change (popcount 0 =? popcount 1) with false. cbv iota. cbn [fst].
+    change (N.to_nat (2 + 32 * popcount 0)) with 2%nat.
+    change (N.to_nat (2 + 32 * popcount 0 + 32)) with 34%nat.
+    rewrite Hpad, Hdata. unfold slice. cbn [skipn]. change (34 - 2)%nat with 32%nat.
+    set (h := bits_to_bytes b3) in *.
+    rewrite firstn_app, <- Hhl, Nat.sub_diag, firstn_all. cbn [firstn]. apply app_nil_r.
+  Qed.
+
+  Lemma mp_virtual_hash_len v : wf_virtual v = true -> length (s_hash_at H v 0) = 32%nat.
+  Proof.
+    destruct v as [ty bits rs]. intro Hw.
+    destruct (Z.eqb_spec ty ty_pruned) as [->|Hnp].
+    - destruct (mp_pruned_virtual bits rs Hw) as (-> & h & d & Hl & _ & ->). exact Hl.
+    - apply Z.eqb_neq in Hnp. unfold s_hash_at. rewrite (ex_s_hd_np_0 H _ _ _ Hnp). cbn [fst]. apply H_len.
+  Qed.
+
+  Definition mp_snd (v : cell) : Prop :=
+    forall t, wf_virtual v = true -> wf_ord t = true ->
+      s_hash_at H v 0 = s_hash H t -> covers H v t \/ collision H.
+
+  Lemma mp_children : forall vs ts, Forall mp_snd vs ->
+    forallb wf_virtual vs = true -> forallb wf_ord ts = true ->
+    map (fun r => s_hash_at H r 0) vs = map (s_hash H) ts ->
+    Forall2 (covers H) vs ts \/ collision H.
+  Proof.
+    induction vs as [|v vs IH]; intros [|t ts] HF Hwv Hwt E; cbn [map] in E; try discriminate.
+    - left. constructor.
+    - injection E as E0 E.
+      cbn [forallb] in Hwv, Hwt.
+      apply andb_prop in Hwv. destruct Hwv as [Hv Hwv].
+      apply andb_prop in Hwt. destruct Hwt as [Ht Hwt].
+      inversion HF as [|? ? Hsv HF']; subst.
+      destruct (Hsv t Hv Ht E0) as [Hc|Hc]; [|right; exact Hc].
+      destruct (IH ts HF' Hwv Hwt E) as [Hcs|Hcs]; [|right; exact Hcs].
+      left. constructor; assumption.
+  Qed.
+
+  Theorem virtual_sound : forall v t, wf_virtual v = true -> wf_ord t = true ->
+    s_hash_at H v 0 = s_hash H t -> covers H v t \/ collision H.
+  Proof using H H_len H_ok.
+    induction v as [ty bits vs IH] using cell_ind'. intros t Hwv Hwt Hh.
+    destruct (Z.eqb_spec ty ty_pruned) as [->|Hnp].
+    - (* a pruned leaf names the hash it was compared with *)
+      destruct (mp_pruned_virtual bits vs Hwv) as (-> & h & d & Hl & Eb & Ehash).
+      left. apply C_pruned. exists d. rewrite <- Hh, Ehash. f_equal. exact Eb.
+    - (* an ordinary node: equal hashes mean equal representations, or a collision *)
+      apply Z.eqb_neq in Hnp.
+      pose proof Hwv as Hwv'. cbn [wf_virtual] in Hwv'. rewrite Hnp in Hwv'.
+      apply andb_prop in Hwv'. destruct Hwv' as [Hwv' Hwvs].
+      apply andb_prop in Hwv'. destruct Hwv' as [Hwv' Hlv].
+      apply andb_prop in Hwv'. destruct Hwv' as [Hty Hlb].
+      apply Z.eqb_eq in Hty. subst ty.
+      destruct t as [ty' bits' ts].
+      apply wf_ord_inv in Hwt. destruct Hwt as (-> & Hlb' & Hlt & Hwts).
+      unfold s_hash_at in Hh. rewrite (ex_s_hd_np_0 H _ _ _ Hnp) in Hh. cbn [fst] in Hh.
+      rewrite s_hash_cell in Hh.
+      change (is_exotic ty_ordinary) with false in Hh.
+      rewrite ex_tail_kids in Hh. change (is_merkle ty_ordinary) with false in Hh. cbv iota in Hh.
+      match type of Hh with H ?m1 = H ?m2 =>
+        destruct (list_eq_dec N.eq_dec m1 m2) as [E|NE];
+          [|right; exists m1, m2; split; [exact NE|exact Hh]] end.
+      cbn [app] in E. injection E as E1 E2 E3.
+      assert (Hlen : length vs = length ts) by (unfold s_d1 in E1; lia).
+      apply mp_pad_inj in E3; [|exact E2]. destruct E3 as [<- E3].
+      apply mp_app_inv_len in E3.
+      2:{ rewrite map_map.
+          rewrite (mp_concat_len (fun r => be_bytes 2 (s_depth_at H r 0)) 2 vs (fun x => be_bytes_length 2 _)).
+          rewrite (mp_concat_len (fun r => be_bytes 2 (s_depth r)) 2 ts (fun x => be_bytes_length 2 _)).
+          rewrite Hlen. reflexivity. }
+      destruct E3 as [_ E3].
+      apply (mp_concat_inj 32) in E3.
+      + destruct (mp_children vs ts IH Hwvs Hwts E3) as [Hc|Hc]; [|right; exact Hc].
+        left. apply (C_node H bits vs ts Hc).
+      + apply Forall_map. apply Forall_forall. intros x Hx. apply mp_virtual_hash_len.
+        apply (proj1 (forallb_forall _ _) Hwvs x Hx).
+      + apply Forall_map. apply Forall_forall. intros x _. apply (mp_s_hash_len H H_len).
+      + rewrite !map_length. exact Hlen.
+  Qed.
+End Sound.
